@@ -10,6 +10,8 @@ CLAIMED = {
              note='A-PY subset semantics, A-ORACLE (user expressions pure apart from RBQL callables), A-EXEC, A-WRITER interface contract for user writers; bounded: translate_select_expression / replace_star_vars / translate_except_expression (regex)'),
  'C02': dict(cat='proof', ref='5/C02', text='TopWriter, UniqWriter, UniqCountWriter, SortedWriter (__init__/write/finish) are proved for all record sequences against take / dedup_first / count / stable-sort-permutation specs with ghost offered sequences, typestate and frames; chain construction and TOP/LIMIT/DISTINCT extraction have bounded stand-ins only',
              note='A-SORT (sorted() is the stable permutation, validated boundedly), A-WRITER, A-PY; termination clause read as: no pull after a refused write (DESIGN C02)'),
+ 'C03': dict(cat='proof', ref='5/C03', text='NumHandler.parse (string->number conversion, sticky int->float fallback, error text) and all aggregator classes (SUM, COUNT, MIN, MAX, AVG, VARIANCE, MEDIAN, ANY_VALUE, constant-column verifier: __init__/increment/get_final) are proved, for every sequence of increments and every key, to hold exactly the mathematical aggregate of the group history (ghost hist per key; numbers as reals); AggregateWriter/select_aggregated/wrapper dispatch and COUNT(*) rewriting have a bounded stand-in (enumerated aggregate queries vs definitions)',
+             note='A-FLOAT (IEEE rounding ignored: numbers are reals), A-NUMPARSE (int()/float() as partial parsers with float(s)==int(s) on integer literals), A-SORT (sorted == insertion-sort spec), homogeneous numeric columns (property quantifier)'),
  'C04': dict(cat='proof', ref='5/C04', text='key extraction (single/multi, NR components, short-record errors), get_join_records, Inner/Left/StrictLeft joiners and the generated JOIN select and UPDATE loops are proved against the pairing spec join_pairs_for / jsel_out for all tables and expressions; HashJoinMap.build and join expression parsing have bounded stand-ins',
              note='A-PY, A-DICT; bounded: parse_join_expression / resolve_join_variables text handling'),
  'C05': dict(cat='proof', ref='5/C05', text='safe_set and the generated UPDATE loops (simple and JOIN; WHERE embedded as `x or y`) are proved for all tables and right-hand sides: one record per input record, only assigned fields change, RHS see original values, NU counts, errors name the record; assignment-list translation has a bounded stand-in',
